@@ -29,11 +29,12 @@ META = {
                    "the reference side of the plane within the reference angle; positions are added only under the geometric, "
                    "milestone and direction tests; for every tree path the restrained residue carries the window "
                    "[d - tol, d + tol + avg] and a position accepted against it lies inside; cyclic molecules are traversed depth "
-                   "first, and (C07_ring_closing_pair, by induction along the ring, model/Dfs.v) for a ring of EVERY size n >= 3, every "
+                   "first, and (C07_ring_search_tree / C07_ring_closing_pair, by induction along the ring, model/Dfs.v) for a ring of EVERY size n >= 3, every "
                    "node labelling, every order of the adjacency lists and every root the depth-first search tree is the path through "
-                   "all residues that leaves the root by its first-listed neighbour and ends at its second-listed one, so the pair "
-                   "_initialize_cylces restrains (first edge's source, last edge's target; text regenerated from the source) is joined "
-                   "by the one ring edge the tree leaves out; arange samples lie in [step, contour length). The distance-restraint "
+                   "all residues that leaves the root by its first-listed neighbour and ends at its second-listed one, and the pair "
+                   "_initialize_cylces restrains (the first molecule edge the search tree leaves out, ends in discovery order; its five "
+                   "assignments regenerated from the source) is that closing edge for any listing of the ring's edges; for any molecule "
+                   "(ring with ligands or tails) the restrained pair is an edge the tree leaves out; arange samples lie in [step, contour length). The distance-restraint "
                    "model, the milestone test, the depth-first tree model (networkx dfs_tree on random connected graphs and on rings "
                    "3-12 with every root, edge order as list(tree.edges)) and the restrained cycle pair are tied to the code by "
                    "correspondence, and complete gen_coords runs with generated build files (cyclic molecules with additional "
@@ -222,9 +223,10 @@ def ring_cases(ctx):
         """model/Dfs.v on the implementation's own adjacency lists vs the real search tree"""
         tbl = '[' + '; '.join(f"({lit(int(v))}, {lit([int(u) for u in meta[v]])})" for v in meta.nodes) + ']'
         root = meta.root if meta.root is not None else list(meta.nodes)[0]
-        dfs_exprs.append(f"(tree_edges (adj_of {tbl}) {nnodes}%nat {lit(int(root))}, cycle_pair (adj_of {tbl}) {nnodes}%nat {lit(int(root))})")
+        medges = [(int(a), int(b)) for a, b in meta.edges]
+        dfs_exprs.append(f"(tree_edges (adj_of {tbl}) {nnodes}%nat {lit(int(root))}, closing_pair (adj_of {tbl}) {lit(medges)} {nnodes}%nat {lit(int(root))})")
         te = [(int(a), int(b)) for a, b in meta.search_tree.edges]
-        dfs_impl.append((te, (te[0][0], te[-1][1]) if te else None))
+        dfs_impl.append((te, None))
     # depth-first trees of arbitrary connected residue graphs (trees, rings with tails, several cycles)
     for _ in range(ctx.n(40, 400)):
         n = rng.randint(2, 9)
@@ -243,6 +245,24 @@ def ring_cases(ctx):
         meta.dfs = True
         meta.root = rng.choice(keys)
         dfs_case(meta, n)
+        if len(edges) <= n:
+            # a tree, or one ring with tails / pendant residues: the pair the real _initialize_cylces restrains
+            meta.mol_name = 'ring'
+
+            class TopG:
+                molecules = [meta]
+                mol_idx_by_name = {'ring': [0]}
+                distance_restraints = defaultdict(dict)
+            gc._initialize_cylces(TopG, ['ring'], 0.0)
+            pairs = list(TopG.distance_restraints[('ring', 0)])
+            dfs_impl[-1] = (dfs_impl[-1][0], tuple(int(x) for x in pairs[0]) if pairs else None)
+            if len(edges) == n:
+                ctx.feature('ring_with_tails_pairs')
+                left_out = {frozenset(e) for e in edges} - {frozenset(e) for e in meta.search_tree.edges}
+                if len(pairs) != 1 or frozenset(pairs[0]) not in left_out:
+                    ctx.violation('spec', f"ring with tails ({n} residues, root {meta.root}): restrained pair {pairs[0] if pairs else None} is not the "
+                                  f"edge the search tree leaves out {sorted(map(sorted, left_out))}",
+                                  {'ring_with_tails': sorted(map(list, edges)), 'root': meta.root, 'nodes': list(meta.nodes)})
         ctx.case(('dfs', tuple(meta.nodes), tuple(edges), meta.root), nontrivial=len(edges) >= n)
     for n in range(3, 13):
         for root_pos in range(n):
@@ -303,6 +323,17 @@ def ring_cases(ctx):
 
 
 # ------------------------------------------------------------------ (d) end-to-end with build files
+def gen_cyclic_host_case(rng):
+    """a ring declared cyclic that hosts a ligand (an extra residue hangs on the ring while it is built), on any residue --
+    also the one the search tree reaches last: the ring is still closed between the residues its closing edge joins"""
+    host = systems.gen_moltype(rng, 'MA', nres=rng.randint(4, 7), shape='ring')
+    lig = systems.gen_moltype(rng, 'LIG', nres=1, resnames=['LG'])
+    r = rng.choice([host['nres'], host['nres'] - 1, rng.randint(1, host['nres'])])
+    box = [round(rng.uniform(6, 8), 2) for _ in range(3)]
+    return {'moltypes': [host, lig], 'molecules': [('MA', 1), ('LIG', 1)], 'box': box, 'build': '[ molecule ]\nMA 0 1\n', 'decl': [],
+            'cycles': ['MA'], 'seed': rng.randrange(10 ** 6), 'start': [], 'ligands': [[f"MA#0-{host['resnames'][r - 1]}#{r}", 'LIG#1']]}
+
+
 def gen_build_case(rng, ring_with_restraint=False, rw_nonunit=False):
     mts = [systems.gen_moltype(rng, 'MA', nres=rng.randint(5, 9) if ring_with_restraint else rng.randint(3, 7),
                                shape='ring' if ring_with_restraint else rng.choice(['path', 'path', 'tree', 'ring']))]
@@ -496,7 +527,7 @@ def run_build_case(case, timeout=60):
     with systems.Workdir() as wd:
         res = systems.run_gen_coords(wd, top, seed=case['seed'], hooks=hooks, files={'opts.bld': case['build']},
                                      build=['opts.bld'], box=box, cycles=case['cycles'], cycle_tol=0.0, maxiter=200,
-                                     start=list(case.get('start') or []), timeout=timeout)
+                                     start=list(case.get('start') or []), ligands=[list(x) for x in case.get('ligands') or []], timeout=timeout)
     rec['ok'] = res['ok']
     rec['exc'] = None if res['ok'] else f"{res['exc_type']}: {res['exception']}"
     return rec
@@ -551,11 +582,12 @@ def run(ctx):
     ring_cases(ctx)
     bcases = [c for _, c in core.corpus_cases('C07')]
     # a molecule declared cyclic that also carries a build-file distance restraint: always exercised
+    bcases += [gen_cyclic_host_case(ctx.rng) for _ in range(ctx.n(3, 20))]
     bcases += [gen_build_case(ctx.rng, ring_with_restraint=True) for _ in range(ctx.n(3, 20))]
     bcases[len(bcases) - 2:len(bcases) - 2] = [gen_build_case(ctx.rng, rw_nonunit=True) for _ in range(ctx.n(2, 12))]
     bcases += [gen_build_case(ctx.rng) for _ in range(ctx.n(12, 120))]
     if ctx.broken:
-        bcases = bcases[:5] + [c for c in bcases[5:] if c.get('start')][:8]
+        bcases = bcases[:8] + [c for c in bcases[8:] if c.get('start')][:8]
     timeouts = 0
     for case in bcases:
         if timeouts >= 2:
@@ -567,6 +599,8 @@ def run(ctx):
             ctx.note(f"gen_coords with build file did not finish: {rec['exc']} -- build file: {case['build']!r} cycles {case['cycles']} "
                      f"shape {case['moltypes'][0]['shape']} nres {case['moltypes'][0]['nres']} molecules {case['molecules']}")
         ctx.feature('e2e_ok' if rec['ok'] else 'e2e_failed')
+        if case.get('ligands'):
+            ctx.feature('e2e_cyclic_host_with_ligand')
         if case.get('start'):
             ctx.feature('e2e_start_on_restrained_residue_' + ('by_name' if '#0-' not in case['start'][0] else 'with_index'))
         ctx.feature('e2e_restraint_checks', rec['selected'])
